@@ -27,6 +27,9 @@ type w1 struct {
 	p       *Prog
 	tainted map[types.Object]bool // locals and parameters carrying a wire integer
 	raw     map[types.Object]bool // ... that did NOT pass through the ReadCount sanitiser
+	// strictLen: the sink is an INDEX - an upper bound against len(..) has to be strict (i < len(a)); i <= len(a) lets the
+	// index one past the end through
+	strictLen bool
 }
 
 // isCounted: e is a call of the sanitiser Decoder.ReadCount
@@ -290,6 +293,15 @@ func (w *w1) bounds(info *types.Info, facts []condFact, v types.Object, body ast
 		}
 		switch op {
 		case token.LSS, token.LEQ:
+			if op == token.LEQ && w.strictLen {
+				other := be.Y
+				if vRight {
+					other = be.X
+				}
+				if lc, ok := ast.Unparen(other).(*ast.CallExpr); ok && IsBuiltin(info, lc, "len") {
+					continue // v <= len(a) does not bound an index
+				}
+			}
 			upper = true
 		case token.GTR, token.GEQ:
 			lower = true
@@ -515,7 +527,9 @@ func ruleW1(r *Run) {
 				r.Ok(key, at.Pos(), "count obtained through the ReadCount sanitiser (non-negative, bounded by the bytes left for in-memory input)")
 				return
 			}
+			w.strictLen = kind == "index"
 			lo, up := w.bounds(info, factsWithSwitch(parents, at), v, fd.Body, at.Pos())
+			w.strictLen = false
 			var missing []string
 			if needLower && !lo {
 				missing = append(missing, "a lower bound (negative values)")
